@@ -188,6 +188,24 @@ pub fn c15(g: &mut Gen) {
         lines.push("sp A ser".to_string());
         g.group(lines);
     }
+    // a LARGE overfull multiset: low width 1, `high` has several hundred thousand bits and its unset bits form one long,
+    // partially filled select superblock
+    if g.thorough {
+        let counts: [u64; 8] = [50_000, 40_000, 60_000, 30_000, 0, 70_000, 45_000, 65_000];
+        let mut vals: Vec<u64> = Vec::new();
+        for (v, c) in counts.iter().enumerate() { for _ in 0..*c { vals.push(v as u64); } }
+        let mut lines = vec![format!("sp A build 8 1 {}", vals_str(&vals))];
+        lines.push("sp A len".to_string()); lines.push("sp A ones".to_string());
+        for x in 0..10u64 { if x < 8 { lines.push(format!("sp A get {}", x)); } lines.push(format!("sp A rank {}", x)); lines.push(format!("sp A pred {}", x)); lines.push(format!("sp A succ {}", x)); }
+        for r in [0u64, 1, 49_999, 50_000, 89_999, 90_000, 180_000, 250_000, 359_999, 360_000] { lines.push(format!("sp A select {}", r)); }
+        g.group(lines);
+        let mut it: Vec<u64> = Vec::new();
+        for (v, c) in [(0u64, 120_000u64), (3, 1), (9, 150_000)] { for _ in 0..c { it.push(v); } }
+        let mut lines = vec![format!("sp I from_iter {}", vals_str(&it))];
+        lines.push("sp I len".to_string()); lines.push("sp I ones".to_string());
+        for x in 0..11u64 { lines.push(format!("sp I rank {}", x)); lines.push(format!("sp I succ {}", x)); }
+        g.group(lines);
+    }
     // multisets over universes in the top part of the usize range (bucket arithmetic must not overflow)
     for (n, vals) in [
         (MAXU, vec![0u64, 0, 7, 7, 7, 1 << 40, MAXU - 3, MAXU - 1, MAXU - 1]),
